@@ -400,6 +400,10 @@ var zones = []string{"UTC", "America/New_York", "Europe/London", "Asia/Kolkata",
 
 var dateFormats = []envs.DateFormat{envs.DateFormatYearMonthDay, envs.DateFormatDayMonthYear, envs.DateFormatMonthDayYear}
 
+// times of day at and just beyond the limits of a day
+var timeEdges = []string{"23:59:59", "23:59:60", "23:60", "24:00", "24:00:00", "24:00:01", "24:30", "12:60 am", "0:60", "11:60 pm",
+	"00:00", "23:59", "12:00 am", "11:59 pm", "12:59:60 pm", "25:00", "23:61"}
+
 var fieldKeyPool = []string{"age", "score", "dob", "joined", "gender", "nick", "state", "district", "ward", "name", "urn",
 	"status", "tel", "language", "balance", "seen", "uuid", "tickets", "group"}
 var fieldTypes = []string{"text", "number", "datetime", "state", "district", "ward"}
@@ -1542,6 +1546,7 @@ func (w *world) audit(res *hx.Result, spec *worldSpec, ci int, cs *contactSpec, 
 			text    string
 			d       *day
 			foreign bool // written with an explicit UTC offset that is not the environment's at that instant
+			edge    bool // written with a time of day at or just beyond the limits of a day
 		}
 		var vals []qv
 		if p.VT == "number" {
@@ -1552,6 +1557,18 @@ func (w *world) audit(res *hx.Result, spec *worldSpec, ci int, cs *contactSpec, 
 			for i := range spec.Days {
 				d := spec.Days[i]
 				vals = append(vals, qv{text: formatDay(envs.DateFormat(spec.DateFormat), d, r), d: &d})
+				if r.Chance(1, 2) {
+					// the date with a time of day at or just beyond the limits: whatever the time part, the value names day d
+					// (a value the parser refuses is skipped as invalid)
+					ds := d.String()
+					for k := 0; k < 6; k++ {
+						if x := formatDay(envs.DateFormat(spec.DateFormat), d, r); !strings.Contains(x, " ") {
+							ds = x
+							break
+						}
+					}
+					vals = append(vals, qv{text: ds + " " + hx.Pick(r, timeEdges), d: &d, edge: true})
+				}
 				if r.Chance(1, 2) {
 					// an instant of that environment day, written as ISO text with another zone's offset (often another date there)
 					t := time.Date(d.Y, time.Month(d.M), d.D, r.Intn(24), 30, 0, 0, w.tz)
@@ -1634,6 +1651,8 @@ func (w *world) audit(res *hx.Result, spec *worldSpec, ci int, cs *contactSpec, 
 						}
 					} else if v.foreign {
 						class = "date-comparison:value-with-foreign-offset"
+					} else if v.edge {
+						class = "date-comparison:value-time-overflows-day"
 					}
 					res.Fail(class, fi(p, "=", v.text, fmt.Sprintf("value %s = %s local", t.Format(time.RFC3339Nano), t.In(w.tz).Format(time.RFC3339Nano))),
 						fmt.Sprintf("value is on local day %s, queried day %s (%s long): expected </=/> %v/%v/%v, got %v/%v/%v",
